@@ -39,7 +39,7 @@ ASSUMPTIONS = ['_RangeIterator read-ahead size is >= 1 (max_batch_size >= 1).',
 
 
 def run(ctx: Ctx):
-  for r in (r1, r2, r3, r4, r5, r6, r7, r8):
+  for r in (r1, r2, r3, r4, r5, r6, r7, r8, r9):
     ctx.guard(r)
 
 
@@ -326,7 +326,9 @@ def r4(ctx: Ctx):
         is_self_attr(n.ast.target, '_index') and isinstance(n.ast.op, ast.Add)
         and unparse(n.ast.value) == '1')
     for nx in nexts:
-      starts = [s for s, lab in nx.succ if lab == 'next']
+      starts = [s for s, lab in nx.succ if lab not in ('exc', 'close')]
+      if not starts:
+        raise AnalysisError(f'{rule}: {qn}: next() has no normal successor')
       bad = None
       for st in starts:
         if inc(st):
@@ -637,6 +639,62 @@ def r8(ctx: Ctx):
   ctx.floor(rule, 1, n)
 
 
+def r9(ctx: Ctx):
+  rule = 'R-C09-9'
+  ctx.rule(rule, 'slice bounds are normalised like a list\'s: the positions'
+           ' MergedSequences.slice looks up come from `<slice>.indices(len)`'
+           ' (or are clamped with max/min on both sides) and an empty result is'
+           ' returned when start >= stop — raw negative or reversed bounds'
+           ' would otherwise be looked up as if they were positions')
+  ci = ctx.repo.cls('utils.iter_utils', 'MergedSequences')
+  fi = ci.methods.get('slice')
+  if fi is None:
+    raise AnalysisError(f'{rule}: MergedSequences.slice not found')
+  sp = fi.params()[1]
+  lookups = [c for c in walk_no_nested(fi.node) if isinstance(c, ast.Call)
+             and unparse(c.func) == 'self._index' and c.args]
+  if len(lookups) < 2:
+    raise AnalysisError(f'{rule}: expected two position lookups in slice()')
+  norm_names = set()
+  for x in walk_no_nested(fi.node):
+    if isinstance(x, ast.Assign) and isinstance(x.value, ast.Call) and isinstance(
+        x.value.func, ast.Attribute) and x.value.func.attr == 'indices' and unparse(
+            x.value.func.value) == sp:
+      for t in x.targets:
+        norm_names |= {y.id for y in ast.walk(t) if isinstance(y, ast.Name)}
+  n = 0
+  for c in lookups:
+    n += 1
+    a = c.args[0]
+    names = {y.id for y in ast.walk(a) if isinstance(y, ast.Name)}
+    clamped = any(isinstance(y, ast.Call) and unparse(y.func) in ('max', 'min') for y in ast.walk(a))
+    raw = any(isinstance(y, ast.Attribute) and unparse(y.value) == sp and y.attr in ('start', 'stop')
+              for y in ast.walk(a))
+    if (names & norm_names and not raw) or (clamped and not (names & norm_names) and raw is not None and clamped):
+      ctx.ok(rule, fi, f'lookup of `{unparse(a)[:40]}` uses a normalised bound', c)
+    else:
+      ctx.fail(rule, fi, f'MergedSequences.slice: positions come from {sp}.indices(len(self))',
+               f'slice() looks up `{unparse(a)[:50]}`, a raw bound of the slice: a'
+               ' negative bound beyond the length or a start behind the stop is'
+               ' treated as a position, so merged[a:b] yields elements where'
+               ' the concatenation yields none (e.g. [[1, 2], [3]][-1:0] gives'
+               ' [3])', node=c)
+  # empty result for start >= stop
+  empties = [x for x in walk_no_nested(fi.node) if isinstance(x, ast.If) and isinstance(x.test, ast.Compare)
+             and isinstance(x.test.ops[0], (ast.GtE, ast.LtE, ast.Gt, ast.Lt))
+             and {y.id for y in ast.walk(x.test) if isinstance(y, ast.Name)} <= norm_names
+             and len({y.id for y in ast.walk(x.test) if isinstance(y, ast.Name)}) == 2
+             and any(isinstance(b_, ast.Return) for b_ in x.body)]
+  n += 1
+  if empties:
+    ctx.ok(rule, fi, 'start >= stop returns an empty iterator', empties[0])
+  elif not any(f.rule == rule for f in ctx.findings):
+    ctx.fail(rule, fi, 'MergedSequences.slice: empty result when start >= stop',
+             'a slice whose start is not before its stop is not answered with an'
+             ' empty iterator', node=fi.node)
+  ctx.floor(rule, 3, n)
+
+
 from mlmverif.selfcheck import B, OK  # noqa: E402
 
 _F = 'chainables/io.py'
@@ -671,8 +729,8 @@ VARIANTS = [
     B('len-uses-data', _F, '  def __len__(self) -> int:\n    return self.end - self.start',
       '  def __len__(self) -> int:\n    return len(self.data) - self.start', 'R-C09-3'),
     B('iterator-slice-to-data-end', _F,
-      '    self._it = iter_(config.data[config.start : config.end])',
-      '    self._it = iter_(config.data[config.start :])', 'R-C09-3'),
+      '    self._it = iter(config.data[config.start : config.end])',
+      '    self._it = iter(config.data[config.start :])', 'R-C09-3'),
     B('skip-without-index', _F,
       '    while self._index % num_shards != shard_index:\n      _ = next(self._it)\n      self._index += 1',
       '    while self._index % num_shards != shard_index:\n      _ = next(self._it)',
@@ -682,6 +740,12 @@ VARIANTS = [
       '    while self._index % shard_index != num_shards:', 'R-C09-4'),
     B('revert-empty-subsequence-lookup', 'utils/iter_utils.py',
       '      # Empty sequences start at the same index, take the last one of them.\n      idx_seq = bisect.bisect_right(indices, index) - 1\n', '', 'R-C09-8'),
+    B('revert-slice-normalisation', 'utils/iter_utils.py',
+      '    start_index, stop_index, _ = slice_.indices(len(self))\n    if start_index >= stop_index:\n      return iter(())\n    start = self._index(start_index)\n    stop = self._index(stop_index)\n',
+      '    start = self._index(slice_.start or 0)\n    stop = self._index(len(self) if slice_.stop is None else slice_.stop)\n',
+      'R-C09-9'),
+    B('slice-no-empty-return', 'utils/iter_utils.py',
+      '    if start_index >= stop_index:\n      return iter(())\n', '', 'R-C09-9'),
     B('seq-idxs-not-cumulative', 'utils/iter_utils.py',
       '    self._seq_idxs.extend(itt.accumulate(map(len, self._sequences), op.add))',
       '    self._seq_idxs.extend(map(len, self._sequences))', 'R-C09-7'),
